@@ -67,6 +67,8 @@ def run(repo, rep):
     rep.rule('C10.X5', 'the fragment width term, evaluated at the boundary values of the limit (0 = none, overhead+1 = the smallest '
              'that can carry a payload byte, ..., 2^32-1), is at least 1 and never exceeds limit - overhead: both sides stay able '
              'to send for every pair of announced values', 2)
+    rep.rule('C10.X6', 'a message of any size ends with exactly one last fragment: chunks tile the encoded bytes and flag the '
+             'final chunk for every length, including exact multiples of the fragment width (same analysis as C06.S2/S3)', 1)
     rep.rule('C10.X4', 'a limit of 0 reaching the fragmenters or the provider\'s socket read is treated as "no limit", not as a size', 3)
 
     # ---------------------------------------------------------------- X1 / X2
@@ -227,6 +229,10 @@ def run(repo, rep):
                     p5.append('with a limit of %d the fragment width %s is %d: the P-DATA-TF would carry %d bytes' % (L, w, val, val + k))
         rep.check(not p5, 'C10.X5', 'dimsemessages:%s:width-at-boundaries' % fname, f.loc(),
                   'width >= 1 and width + %d <= limit at %d boundary values of the limit' % (k, len(grid)), '; '.join(sorted(set(p5))[:4]))
+    from .c06 import chunks_problems
+    ps2_, ps3_, chf = chunks_problems(repo, rep)
+    rep.check(not (ps2_ or ps3_), 'C10.X6', 'dimsemessages:chunks:any-size', chf.loc(), 'tiling and last flag hold for every length',
+              '; '.join(ps2_ + ps3_))
     cip = repo.cls('dulprovider', 'DULServiceProvider').find_method('_check_incoming_pdu')
     rep.analysed(cip)
     probs = []
